@@ -487,7 +487,7 @@ def check_constructors(s, rule="C13.5"):
              s.loc("FlattenObservation", "__init__"), key="flatten-observation", detail=f"func={show(func or NONE, maxlen=80)} space={show(space or NONE, maxlen=160)}")
 
 
-def check_adapters(s):
+def check_adapters(s, rule="C13.7"):
     P = s.prog
     self_ = ("param", "self")
     b = s.builder(inline=set())
@@ -498,7 +498,7 @@ def check_adapters(s):
     p = one(s.paths(b, "LeraxToGymEnv", "step"), con)
     calls = [x for x in walk(p.ret) if isinstance(x, tuple) and x and x[0] == "call" and isinstance(x[1], tuple) and x[1][0] == "attr" and x[1][2] == "step"
              and x[1][1] == ("attr", self_, "env")]
-    s.ob("C13.7", con, len(calls) == 1, "one env.step call", loc, key="one-step", detail=str(len(calls)))
+    s.ob(rule, con, len(calls) == 1, "one env.step call", loc, key="one-step", detail=str(len(calls)))
     if len(calls) == 1:
         c = calls[0]
         # Gymnasium order: (obs, reward, terminated, truncated, info) <- lerax (state, obs, reward, terminal, truncated, info)
@@ -506,11 +506,11 @@ def check_adapters(s):
         ok = len(ret) == 5
         for gi, li in enumerate((1, 2, 3, 4, 5)):
             ok = ok and ("item", c, li) in set(walk(ret[gi])) and not any(("item", c, lj) in set(walk(ret[gi])) for lj in range(6) if lj != li)
-        s.ob("C13.7", con, ok, "returns (obs, reward, terminated, truncated, info) = elements (1,2,3,4,5) of env.step's result, in Gymnasium's order", loc,
+        s.ob(rule, con, ok, "returns (obs, reward, terminated, truncated, info) = elements (1,2,3,4,5) of env.step's result, in Gymnasium's order", loc,
              key="gym-step-order", detail=show(p.ret, maxlen=300), necessary_for="the Gymnasium adapter reproduces the adapted environment's trajectory")
-        s.ob("C13.7", con, p.self_attrs.get("state") == ("item", c, 0), "self.state is element 0 (the successor/reset state) of the same call", loc, key="gym-step-state",
+        s.ob(rule, con, p.self_attrs.get("state") == ("item", c, 0), "self.state is element 0 (the successor/reset state) of the same call", loc, key="gym-step-state",
              detail=show(p.self_attrs.get("state", NONE), maxlen=120))
-        s.ob("C13.7", con, c[2][0] == ("attr", self_, "state"), "the step starts from the stored state", loc, key="gym-step-from", detail=show(c[2][0]))
+        s.ob(rule, con, c[2][0] == ("attr", self_, "state"), "the step starts from the stored state", loc, key="gym-step-from", detail=show(c[2][0]))
     con = "LeraxToGymEnv.reset"
     loc = s.loc("LeraxToGymEnv", "reset")
     for p in live(s.paths(b, "LeraxToGymEnv", "reset")):
@@ -519,7 +519,7 @@ def check_adapters(s):
         if ok:
             c = calls[0]
             ok = ("item", c, 1) in set(walk(p.ret[1][0])) and ("item", c, 2) in set(walk(p.ret[1][1])) and p.self_attrs.get("state") == ("item", c, 0)
-        s.ob("C13.7", con, ok, "reset returns (obs, info) = elements (1, 2) of env.reset and stores element 0 as the state", loc, key="gym-reset-order",
+        s.ob(rule, con, ok, "reset returns (obs, info) = elements (1, 2) of env.reset and stores element 0 as the state", loc, key="gym-reset-order",
              detail=show(p.ret, maxlen=200))
     # the adapter re-seeds exactly when a seed is given: the guard must be `seed is not None` (0 is a seed like any other) and the new key
     # is jr.key(int(seed)); on the other path the key is carried on
@@ -527,7 +527,7 @@ def check_adapters(s):
     guards = {show(t, maxlen=80) for p_ in live(s.paths(b, "LeraxToGymEnv", "reset")) for t, v in p_.conds}
     want_guard = ("cmp", "IsNot", ("param", "seed"), NONE)
     okg = all(t in (want_guard, ("cmp", "Is", ("param", "seed"), NONE)) for p_ in live(s.paths(b, "LeraxToGymEnv", "reset")) for t, v in p_.conds) and bool(seeded)
-    s.ob("C13.7", "LeraxToGymEnv.reset", okg, "the adapter re-seeds under `seed is not None` (a truthiness test would ignore seed=0)", s.loc("LeraxToGymEnv", "reset"), key="gym-reset-seed-guard",
+    s.ob(rule, "LeraxToGymEnv.reset", okg, "the adapter re-seeds under `seed is not None` (a truthiness test would ignore seed=0)", s.loc("LeraxToGymEnv", "reset"), key="gym-reset-seed-guard",
          detail="; ".join(sorted(guards)), necessary_for="the Gymnasium adapter reproduces the adapted environment's trajectory for every seed")
     for p_ in live(s.paths(b, "LeraxToGymEnv", "reset")):
         given = any((t == want_guard and v) or (t == ("cmp", "Is", ("param", "seed"), NONE) and not v) for t, v in p_.conds)
@@ -537,7 +537,7 @@ def check_adapters(s):
         kk = dict((k, v) for k, v in calls_[0][3] if k).get("key") if calls_ else None
         want_key = ("call", ("global", "jax.random.key"), (("call", ("global", "int"), (("param", "seed"),), ()),), ())
         okk = kk is not None and want_key in set(walk(kk)) and ("attr", self_, "key") not in set(walk(kk))
-        s.ob("C13.7", "LeraxToGymEnv.reset[seed given]", okk, "with a seed the reset key derives from jr.key(int(seed)) alone (not from the adapter's running key)", s.loc("LeraxToGymEnv", "reset"),
+        s.ob(rule, "LeraxToGymEnv.reset[seed given]", okk, "with a seed the reset key derives from jr.key(int(seed)) alone (not from the adapter's running key)", s.loc("LeraxToGymEnv", "reset"),
              key="gym-reset-seed-key", detail=show(kk if kk is not None else NONE, maxlen=140))
     # GymToLeraxEnv.transition: io_callback result tuple aligned with the callback's return tuple and the Gymnasium order
     con = "GymToLeraxEnv.transition"
@@ -546,7 +546,7 @@ def check_adapters(s):
     f = fields(p.ret)
     ios = [x for x in walk(p.ret) if isinstance(x, tuple) and x and x[0] == "call" and x[1] == ("global", "jax.experimental.io_callback")]
     ok = len(ios) == 1 and isinstance(ios[0][2][0], Closure)
-    s.ob("C13.7", con, ok, "one io_callback with a local step function", loc, key="gym-io", detail=str(len(ios)))
+    s.ob(rule, con, ok, "one io_callback with a local step function", loc, key="gym-io", detail=str(len(ios)))
     if ok:
         io = ios[0]
         out = b.apply(io[2][0], (("param", "$act"),), ())
@@ -555,17 +555,17 @@ def check_adapters(s):
         if okc:
             for i in range(4):
                 okc = okc and nz.canon(out[1][i]) == nz.canon(("item", st[0], i))
-        s.ob("C13.7", con, okc, "the callback returns elements (0,1,2,3) = (obs, reward, terminated, truncated) of gym step()", loc, key="gym-callback-order",
+        s.ob(rule, con, okc, "the callback returns elements (0,1,2,3) = (obs, reward, terminated, truncated) of gym step()", loc, key="gym-callback-order",
              detail=show(out, maxlen=300))
         okf = all(f.get(n_) == ("item", io, i) for i, n_ in enumerate(("observation", "reward", "terminal", "truncated")))
-        s.ob("C13.7", con, okf, "state fields (observation, reward, terminal, truncated) are elements (0,1,2,3) of the io_callback result", loc, key="gym-state-fields",
+        s.ob(rule, con, okf, "state fields (observation, reward, terminal, truncated) are elements (0,1,2,3) of the io_callback result", loc, key="gym-state-fields",
              detail=show(p.ret, maxlen=300), necessary_for="terminated and truncated are not interchanged")
         shapes = io[2][1] if len(io[2]) > 1 else None
         oks = isinstance(shapes, tuple) and shapes[0] == "tuple" and len(shapes[1]) == 4
-        s.ob("C13.7", con, oks, "the result-shape tuple has one entry per returned element", loc, key="gym-shape-tuple", detail=show(shapes or NONE, maxlen=200))
+        s.ob(rule, con, oks, "the result-shape tuple has one entry per returned element", loc, key="gym-shape-tuple", detail=show(shapes or NONE, maxlen=200))
     for meth, want in (("observation", "state.observation"), ("reward", "next_state.reward"), ("terminal", "state.terminal"), ("truncate", "state.truncated")):
         pp = one(s.paths(b, "GymToLeraxEnv", meth), f"GymToLeraxEnv.{meth}")
-        s.ob("C13.7", f"GymToLeraxEnv.{meth}", pp.ret == s.ref(b, want, {"state": ("param", "state"), "next_state": ("param", "next_state")}), f"{meth} == {want}",
+        s.ob(rule, f"GymToLeraxEnv.{meth}", pp.ret == s.ref(b, want, {"state": ("param", "state"), "next_state": ("param", "next_state")}), f"{meth} == {want}",
              s.loc("GymToLeraxEnv", meth), key="gym-accessor", detail=show(pp.ret))
     # Gymnax
     con = "GymnaxToLeraxEnv.transition"
@@ -578,7 +578,7 @@ def check_adapters(s):
         c = st[0]
         ok = (c[2] == (("param", "key"), ("attr", ("param", "state"), "env_state"), ("param", "action"), ("attr", self_, "params"))
               and f.get("observation") == ("item", c, 0) and f.get("env_state") == ("item", c, 1) and f.get("reward") == ("item", c, 2) and f.get("terminal") == ("item", c, 3))
-    s.ob("C13.7", con, ok, "step_env(key, state.env_state, action, params) -> fields (observation, env_state, reward, terminal) = elements (0,1,2,3)", loc,
+    s.ob(rule, con, ok, "step_env(key, state.env_state, action, params) -> fields (observation, env_state, reward, terminal) = elements (0,1,2,3)", loc,
          key="gymnax-step-order", detail=show(p.ret, maxlen=300))
     con = "LeraxToGymnaxEnv.step_env"
     loc = s.loc("LeraxToGymnaxEnv", "step_env")
@@ -590,7 +590,7 @@ def check_adapters(s):
         r = p.ret[1]
         ok = (r[0] == ("item", c, 1) and fields(r[1]).get("env_state") == ("item", c, 0) and r[2] == ("item", c, 2)
               and nz.canon(r[3]) == nz.canon(("bin", "BitOr", ("item", c, 3), ("item", c, 4))) and r[4] == ("item", c, 5))
-    s.ob("C13.7", con, ok, "returns (obs, state', reward, terminated|truncated, info) from elements (1,0,2,3|4,5) of env.step", loc, key="gymnax-env-step-order",
+    s.ob(rule, con, ok, "returns (obs, state', reward, terminated|truncated, info) from elements (1,0,2,3|4,5) of env.step", loc, key="gymnax-env-step-order",
          detail=show(p.ret, maxlen=300), necessary_for="done = termination | truncation")
     con = "LeraxToGymnaxEnv.reset_env"
     p = one(s.paths(b, "LeraxToGymnaxEnv", "reset_env"), con)
@@ -599,5 +599,5 @@ def check_adapters(s):
     if ok:
         init = ("call", ("attr", ("attr", self_, "env"), "initial"), (), (("key", KEY),))
         ok = r[1][0] == ("call", ("attr", ("attr", self_, "env"), "observation"), (init,), (("key", KEY),)) and fields(r[1][1]).get("env_state") == init
-    s.ob("C13.7", con, ok, "reset_env returns (observation(initial state), state wrapping that same initial state)", s.loc("LeraxToGymnaxEnv", "reset_env"), key="gymnax-reset",
+    s.ob(rule, con, ok, "reset_env returns (observation(initial state), state wrapping that same initial state)", s.loc("LeraxToGymnaxEnv", "reset_env"), key="gymnax-reset",
          detail=show(p.ret, maxlen=300))
